@@ -118,7 +118,8 @@ def stage_decode(ctx):
 
 SPEC = spec(
     'C09',
-    ['C09_udp_error_received_is_the_model', 'C09_tcp_error_received_is_the_model',
+    ['C09_execute_catches_is_the_model',
+     'C09_udp_error_received_is_the_model', 'C09_tcp_error_received_is_the_model',
      'C09_reported_count', 'C09_first_failure_after_success_reports_one', 'C09_exceptions_are_mapped', 'C09_reported_outcome_is_the_mapped_one',
      'C09_no_exception_in_loop_callbacks', 'C09_loop_exception_is_expressible'],
     text='Refinement theorems re-proved on every run: the model functions used below ARE the current source of the corresponding synchronous methods of protocol.py (translated by tools/cb2v.py into the statement language of Model/Callbacks.v, fail-closed): error_received. '
